@@ -5,6 +5,7 @@ import (
 	"fmt"
 	"io"
 	"math/rand"
+	"net/http"
 	"os"
 	"runtime"
 	"strings"
@@ -117,7 +118,7 @@ func genLivenessScript(r *rand.Rand, kind Kind, http bool) *Script {
 
 func checkC05(e *core.Env) {
 	curEnv = e
-	e.SetRule("bounded random programs: a client sender goroutine (Send*, CloseSend, double CloseSend, Send after CloseSend, cancel) and a client receiver goroutine (Recv*, Header, Trailer, CloseSend racing the sender, cancel) against handlers (Recv*, Send*, SetHeader, SendHeader, SetTrailer, early return ok/error, a goroutine that keeps sending after the handler returned), then operations after completion; in-process (full duplex) and HTTP (incl. the handler returning while >256 KiB are still to be sent); monitors: recover() around every operation + child-crash classifier, stable-park deadlock detector over goroutine dumps once the handler returned or the context ended, result check for sends issued after the handler finished, goroutine-leak monitor after each batch; distinct = (carrier, script shape)")
+	e.SetRule("bounded random programs: a client sender goroutine (Send*, CloseSend, double CloseSend, Send after CloseSend, cancel) and a client receiver goroutine (Recv*, Header, Trailer, CloseSend racing the sender, cancel) against handlers (Recv*, Send*, SetHeader, SendHeader, SetTrailer, early return ok/error, a goroutine that keeps sending after the handler returned), then operations after completion; in-process (full duplex) and HTTP (incl. the handler returning while >256 KiB are still to be sent); monitors: recover() around every operation + child-crash classifier, stable-park deadlock detector over goroutine dumps once the handler returned or the context ended, result check for sends issued after the handler finished, goroutine-leak monitor and connection-leak monitor (no client connection still checked out of the transport) after each batch; distinct = (carrier, script shape)")
 	e.Assume("a hang counts only when every actor/library goroutine is parked in a blocking primitive at identical frames over several samples and none is runnable; script-level waits (neither side obliged to move) are resolved by cancelling the context, after which everything must terminate")
 	runC05(e, e.N(400, 3000))
 }
@@ -255,6 +256,7 @@ func runC05(e *core.Env, n int) {
 		}
 		if batch%25 == 0 {
 			checkLeaks(e, "after a batch of completed calls (none of them cancelled after completion)")
+			checkConnLeaks(e, htt.Transport, "after a batch of completed calls (none of them cancelled after completion)")
 			for _, pr := range pending {
 				pr.Cancel()
 			}
@@ -506,3 +508,32 @@ func leakClass(s string) string {
 var _ = status.Code
 var _ grpc.ServerStream
 var _ context.Context
+
+// checkConnLeaks: once every call has completed, no client connection may still be checked out of the
+// transport (a reply body that was never closed pins its connection and the two goroutines serving it,
+// none of which has a library frame). Idle connections are closed first; what remains is in use.
+func checkConnLeaks(e *core.Env, tr *http.Transport, when string) {
+	tr.CloseIdleConnections()
+	n, lastN, same := 0, -1, 0
+	for i := 0; i < 600; i++ {
+		dump := allStacks()
+		n = strings.Count(dump, "net/http.(*persistConn).readLoop(")
+		if n == 0 {
+			e.Count("connection_leak_checks_clean", 1)
+			return
+		}
+		_, runnable, _ := parkSignature(dump)
+		if n == lastN && !runnable {
+			same++
+		} else {
+			lastN, same = n, 0
+		}
+		if same >= 20 {
+			e.Violate("leak/connection", fmt.Sprintf("%d client connection(s) are still checked out of the HTTP transport %s: a reply body was not closed", n, when), nil)
+			return
+		}
+		tr.CloseIdleConnections()
+		time.Sleep(100 * time.Millisecond)
+	}
+	e.Inconclusive("C05 connection check %s: connection goroutines kept changing for 60 s", when)
+}
